@@ -18,6 +18,7 @@ func init() {
 			c15R2(c, "C15.R2")
 			c15R3(c, "C15.R3")
 			c15R4(c, "C15.R4")
+			ruleInlineNoNested(c, "C15.R5") // the destination is built by many small transactions that touch a parent without opening its sub-buckets
 		},
 	})
 }
